@@ -689,7 +689,7 @@ def classify(module, typename, syntax, status, stderr="", facts=()):
         return "C01-xer-ucs-string-no-escape"
     # ... and the unescaped text "&#0;" / "&#;" then meets the decoder's assert(val > 0) (C04's finding; C01 reaches it only this way)
     if syntax in ("xer", "cxer") and status == "CRASH" and "ustr_xer_charref0" in facts and "OCTET_STRING__convert_entrefs: Assertion `val > 0' failed" in (stderr or ""):
-        return "C04-xer-charref-zero-assert"
+        return "C01-xer-ucs-string-no-escape"
     # asn_OP_ObjectDescriptor has no OER codec
     if syntax == "coer" and "no_oer_codec" in facts and has_node(module, typename, lambda n: n["k"] == "STRING" and n["stype"] == "ObjectDescriptor"):
         if status == ("ENCFAIL:ENOENT" if top_kind(module, typename) == "STRING" else "ENCFAIL:EBADF"):
